@@ -91,7 +91,7 @@ BUILT = {
    'TLA+ evaluator with codecs as environment functions answered by independent implementations + TLC bounded transform universe with replay + trace validation', '6 C14'),
 
  'C04': ('model_checking',
-   'In the specification the format of a layer is not an input of any rule: the file system maps a path to parsed documents, the extension only names the decoder. FormatFree is therefore checked as refinement: TLC evaluates a numeric base layer x 20 upper layers ($match / $delete patterns with 32-bit-overflowing, 64-bit and float ids, same-value overrides of integers, floats, extremes and denormals, $repeat, document-level $match on numbers) x 3 third layers under ALL 3^n assignments of json/yaml/toml, asserts that every assignment equals the all-JSON writing, and each layout is run through the real bkl. Random numeric layer sets (1-3 layers, 1-2 documents) are written under all 3^n assignments, a third of them in a style variant (YAML flow, anchors/aliases, merge keys; TOML dotted keys, inline tables) that the independent decoder confirms to mean the same tree, and TLC validates every run against the format-free RunLayers.',
+   'In the specification the format of a layer is not an input of any rule: the file system maps a path to parsed documents, the extension only names the decoder. FormatFree is therefore checked as refinement: TLC evaluates a numeric base layer x 20 upper layers ($match / $delete patterns with 32-bit-overflowing, 64-bit and float ids, same-value overrides of integers, floats, extremes and denormals, $repeat, document-level $match on numbers) x 3 third layers under ALL 3^n assignments of json/yaml/toml, asserts that every assignment equals the all-JSON writing, and each layout is run through the real bkl. Random numeric layer sets (1-3 layers, 1-2 documents) are written under all 3^n assignments, a third of them in a style variant (YAML flow, anchors/aliases, merge keys, plain number-like keys, markers with comments; TOML dotted keys, inline tables, +++ separators; CRLF line endings) that the independent decoder confirms to mean the same tree, and TLC validates every run against the format-free RunLayers. The document structure of a layer file is a specification of its own (BklStream: a machine over lines with the laws MarkerSpellingFree, CommentsFree, NothingLost, FormatFree): TLC enumerates every sequence of up to 4 (thorough: 6) lines over eight kinds of line, and the real Parser reads each as YAML and as TOML with LF and CRLF endings and must hold exactly the documents the specification reads. A corpus of 41 hand-written YAML / TOML / JSON texts (merge keys and lists of them, anchors, core-schema scalars, block scalars, tables, arrays of tables) is judged through the independent decoders.',
    'Trusts the harness emitters (self-checked by the independent decoders for the style variants). Integral-valued floats are excluded (JSON cannot mark them); TOML layers are map-rooted and null-free, without date/time literals.',
    'TLA+ format-free resolver/evaluator + TLC bounded model over all format assignments with replay + trace validation of recorded runs', '6 C04'),
 }
